@@ -280,4 +280,76 @@ theorem T_C15_backport_mesh (p : List V3) : backportMesh p = p := by
   intro i h1 h2
   simp [pget, List.getD_eq_getElem?_getD, h2]
 
+/-! ### histories: several fixing / smoothing calls on one smoother; a sketch smoothed again after it was moved -/
+
+/-- the fixed set only grows, whatever the calls -/
+theorem T_C15_history_fixed_mono (g : Grid) (s : SmState) (ops : List Op) (i : Nat) (h : i ∈ s.fixed) :
+    i ∈ (runOps g s ops).fixed := by
+  unfold runOps
+  induction ops generalizing s with
+  | nil => exact h
+  | cons o os ih =>
+    simp only [List.foldl_cons]
+    apply ih
+    cases o <;> simp [runOp, h]
+
+/-- For every sequence of `fix_indexes` / `fix_points` / `smooth` calls on one smoother: a point that is on
+    the boundary, outside the grid, or *already fixed at some moment* has the position it had at that
+    moment ever after — later fixing calls never un-fix it. -/
+theorem T_C15_history_frame (g : Grid) (s : SmState) (ops : List Op) (i : Nat)
+    (h : isBoundary g i = true ∨ i ∈ s.fixed ∨ g.n ≤ i) :
+    pget (runOps g s ops).p i = pget s.p i := by
+  unfold runOps
+  induction ops generalizing s with
+  | nil => rfl
+  | cons o os ih =>
+    simp only [List.foldl_cons]
+    have hstep : pget (runOp g s o).p i = pget s.p i := by
+      cases o with
+      | fixIdx l => rfl
+      | fixPts q => rfl
+      | smooth k => exact (T_C15_frame g s.fixed k s.p i h).1
+    have hfix : isBoundary g i = true ∨ i ∈ (runOp g s o).fixed ∨ g.n ≤ i := by
+      rcases h with h | h | h
+      · exact Or.inl h
+      · right; left; cases o <;> simp [runOp, h]
+      · exact Or.inr (Or.inr h)
+    rw [ih (runOp g s o) hfix, hstep]
+
+/-- the same, counted from any moment of the history: `pre` then `post` -/
+theorem T_C15_history_frame_from (g : Grid) (s : SmState) (pre post : List Op) (i : Nat)
+    (h : isBoundary g i = true ∨ i ∈ (runOps g s pre).fixed ∨ g.n ≤ i) :
+    pget (runOps g s (pre ++ post)).p i = pget (runOps g s pre).p i := by
+  have : runOps g s (pre ++ post) = runOps g (runOps g s pre) post := by
+    unfold runOps; rw [List.foldl_append]
+  rw [this]
+  exact T_C15_history_frame g _ post i h
+
+/-- a call `fix_indexes(l)` fixes every index of `l`, a call `fix_points(q)` every junction within TOL of a
+    point of `q` at that moment — both in addition to what was fixed before -/
+theorem T_C15_history_fix (g : Grid) (s : SmState) (l : List Nat) (q : List V3) :
+    (∀ i ∈ l, i ∈ (runOp g s (.fixIdx l)).fixed) ∧
+    (∀ i ∈ fixPoints tol2 s.p q, i ∈ (runOp g s (.fixPts q)).fixed) ∧
+    (∀ i ∈ s.fixed, i ∈ (runOp g s (.fixIdx l)).fixed ∧ i ∈ (runOp g s (.fixPts q)).fixed) := by
+  refine ⟨?_, ?_, ?_⟩ <;> intro i hi <;> simp [runOp, hi]
+
+/-- non-vacuity: fix by position, then by index, then smooth: both stay, the fixed set holds both -/
+example :
+    let g : Grid := structQuads 3 3
+    let p : List V3 := (List.range 16).map (fun q => if q = 5 then ⟨5/4, 3/4, 0⟩ else if q = 10 then ⟨9/4, 2, 0⟩ else quadCoord 3 q)
+    let s := runOps g ⟨[], p⟩ [.fixPts [⟨5/4, 3/4, 0⟩], .fixIdx [10], .smooth 3]
+    s.fixed = [5, 10] ∧ pget s.p 5 = ⟨5/4, 3/4, 0⟩ ∧ pget s.p 10 = ⟨9/4, 2, 0⟩ := by decide +kernel
+
+/-- `SketchSmoother(sketch).smooth(k)` works on the positions the faces hold *now*: every corner that holds
+    a boundary (or fixed) point keeps the position that `sketch.positions`, reconstructed from the current
+    faces, gives for its index — wherever the sketch was moved to since an earlier smoothing. -/
+theorem T_C15_sketch_frame (quads : List (List Nat)) (faces : List (List V3)) (n : Nat) (fixed : List Nat)
+    (k f c i : Nat) (hi : (quads[f]?).bind (·[c]?) = some i)
+    (h : isBoundary ⟨quadKind, quads, n⟩ i = true ∨ i ∈ fixed ∨ n ≤ i) :
+    ((smoothSketch quads faces n fixed k)[f]?).bind (·[c]?) = some (pget (positionsOf quads faces n) i) := by
+  unfold smoothSketch
+  rw [T_C15_backport, hi]
+  simp only [Option.map_some]
+  rw [(T_C15_frame ⟨quadKind, quads, n⟩ fixed k _ i h).1]
+
 end CBV.C15
